@@ -1,0 +1,40 @@
+//go:build verif
+
+// Verification hooks (build tag `verif` only, add-only): a Server around an existing plugin and one-line
+// wrappers of the scheduler-extender HTTP handlers, so that a harness can call the real handlers with
+// arbitrary request bodies without listening on a port.
+package server
+
+import (
+	restful "github.com/emicklei/go-restful"
+	ipamcontext "tkestack.io/galaxy/pkg/ipam/context"
+	"tkestack.io/galaxy/pkg/ipam/schedulerplugin"
+)
+
+// NewServerForVerif returns a Server whose handlers use the given plugin.
+func NewServerForVerif(plugin *schedulerplugin.FloatingIPPlugin, ctx *ipamcontext.IPAMContext) *Server {
+	s := NewServer()
+	s.plugin = plugin
+	s.IPAMContext = ctx
+	return s
+}
+
+// VerifFilter is the POST /v1/filter handler.
+func (s *Server) VerifFilter(request *restful.Request, response *restful.Response) {
+	s.filter(request, response)
+}
+
+// VerifPriority is the POST /v1/priority handler.
+func (s *Server) VerifPriority(request *restful.Request, response *restful.Response) {
+	s.priority(request, response)
+}
+
+// VerifBind is the POST /v1/bind handler.
+func (s *Server) VerifBind(request *restful.Request, response *restful.Response) {
+	s.bind(request, response)
+}
+
+// VerifPreempt is the POST /v1/preempt handler.
+func (s *Server) VerifPreempt(request *restful.Request, response *restful.Response) {
+	s.preempt(request, response)
+}
